@@ -15,7 +15,8 @@ RULE = (
     "Failures are bucketed by (exception type, innermost mosromgr frame).  Non-trivial = some "
     "reference is blank/unknown/repeated/self-referential, or the running order holds a story "
     "without a duration, or the message is an unlisted roElementAction shape."
-    ' Also: a roDelete inside a third of the collections, running orders without roSlug, collections whose roID is blank throughout, stories at child index > 256, encoded documents through from_s3, present-but-empty timing tags, anonymous / twin-ID layouts.')
+    ' Also: a roDelete inside a third of the collections, running orders without roSlug, collections whose roID is blank throughout, stories at child index > 256, encoded documents through from_s3, present-but-empty timing tags, anonymous / twin-ID layouts.'
+    " Round 11: C08's enumerated and generated documents judged for the kind of exception; message tags nested below non-message elements with no message element beside them.")
 ASSUMPTIONS = [
     'messages are schema-shaped: required tags present (roItemMoveMultiple >= 1 itemID, SWAP exactly two IDs, '
     'roStorySend has a storyBody, every story has a storyID and every item an itemID)',
